@@ -5,7 +5,7 @@ import ast
 import itertools
 
 from oracles import tables as O
-from sa.absint import AObj, Interp, Opaque, Tok, to_text
+from sa.absint import AObj, Interp, Opaque, Tok, to_text, EnumV
 from sa.cbmodel import Runner
 from sa.larkmodel import get_grammar, transformer_callbacks
 from sa.pyindex import get_index, is_mutable_literal
@@ -344,6 +344,33 @@ def r13_3(ctx):
                     sig = ("pred_write", "get_pred_num" if isinstance(pn, Opaque) else pn)
             seen.add(sig)
         ctx.check(f"assignment_expr[dest {isa or 'not a register'}] predicate write signal", seen == {exp}, str(exp), str(seen), fn_where(idx, fi))
+    # ... on every kind of assignment to it: compound operators and the outer target of a chain `P0 = RdV = 0`
+    am13 = idx.enum_table("AssignmentType")
+    variants = [(f"operator {op}", op, False) for op in ("+=", "|=", "&=", "^=", "<<=")] + [("outer target of a chained assignment", "=", True)]
+    for vname, op, chained in variants:
+        for isa, exp in (("P0", ("pred_write", "get_pred_num")), ("Pd", ("pred_write", -1))):
+            r = Runner(idx)
+            def items(isa=isa, op=op, chained=chained):
+                dest = r.pure("items[0]", vt=mk_vt("t0", True, 32), cls="Register")
+                r.stubs[("items[0]", "get_isa_name")] = isa
+                r.stubs[("items[0]", "get_pred_num")] = Opaque("get_pred_num")
+                if chained:
+                    src = AObj("Assignment", {"src": r.pure("inner.src"), "dest": r.pure("inner.dest", cls="Register"), "assign_type": EnumV("AssignmentType", "ASSIGN", "=")}, label="items[2]", opaque=True)
+                else:
+                    src = r.pure("items[2]", vt=mk_vt("t2", True, 32))
+                return [dest, Tok("ASSIGN_OP", op), src]
+            fi, outs = r.run("assignment_expr", items, may_subclass=chained)
+            seen = set()
+            for o in outs:
+                if o.kind == "raise":
+                    continue
+                sig = None
+                for ev in o.events:
+                    if ev[0] == "call" and ev[1] == "ext.set_token_meta_data" and ev[2] and ev[2][0] == "pred_write":
+                        pn = ev[3].get("pred_num")
+                        sig = ("pred_write", "get_pred_num" if isinstance(pn, Opaque) else pn)
+                seen.add(sig)
+            ctx.check(f"assignment_expr[dest {isa}, {vname}] predicate write signal", seen == {exp}, str(exp), str(seen), fn_where(idx, fi))
     # get_pred_num returns the digit
     gp = idx.func("Register.get_pred_num")
     for name, exp in (("P0", 0), ("P3", 3), ("P2_new", 2)):
